@@ -147,6 +147,13 @@ Theorem C22_sub_next_spec S hs t incl tn ids : sub_next S hs t incl = (tn, ids) 
 Proof. exact (sub_next_spec S hs t incl tn ids). Qed.
 Print Assumptions C22_sub_next_spec.
 
+(** the run-time contract checks imply the propositional contracts: [use_core] (answer times ordered, status clauses) is
+    evaluated on every recorded answer of all nine integrators, [use_mono] (advanced time never goes back) on the eight
+    AbstractIntegratorRep ones; [use_ok] = both *)
+Theorem C22_use_coreb_sound u : use_coreb u = true -> use_core u.
+Proof. exact (use_coreb_sound u). Qed.
+Print Assumptions C22_use_coreb_sound.
+
 Theorem C22_use_okb_sound u : use_okb u = true -> use_ok u.
 Proof. exact (use_okb_sound u). Qed.
 Print Assumptions C22_use_okb_sound.
@@ -157,7 +164,7 @@ Print Assumptions C22_use_okb_sound.
 Theorem C22_scheduled_called_exactly_at_time S ss thandlers flow cf reportAll time s orc st s' rest log uses :
   ids_disjoint S ss ->
   ts_stepTo S cf [ss] thandlers flow reportAll time s orc = TSRet S st s' rest log uses ->
-  (forall u, In u uses -> use_ok u) ->
+  (forall u, In u uses -> use_core u) ->
   forall k, In k log -> k_cause k = CScheduled ->
   exists h u, In h (ss_handlers ss) /\ h_id h = k_id k /\ In u uses /\
      Ieq (h_next h (u_tcur u) (u_inclEv u)) (Some (k_time k)) /\
@@ -169,7 +176,7 @@ Print Assumptions C22_scheduled_called_exactly_at_time.
 Theorem C22_reporters_called_exactly_at_time S ss thandlers flow cf reportAll time s orc st s' rest log uses :
   ids_disjoint S ss ->
   ts_stepTo S cf [ss] thandlers flow reportAll time s orc = TSRet S st s' rest log uses ->
-  (forall u, In u uses -> use_ok u) ->
+  (forall u, In u uses -> use_core u) ->
   forall k, In k log -> k_cause k = CReport ->
   exists r u, In r (ss_reporters ss) /\ h_id r = k_id k /\ In u uses /\
      Ieq (h_next r (u_tcur u) (u_inclRep u)) (Some (k_time k)) /\
@@ -194,7 +201,7 @@ Print Assumptions C22_handlers_in_time_order_partial.
 Theorem C22_periodic_handler_called_at_multiples S ss thandlers flow cf reportAll time s orc st s' rest log uses interval :
   ids_disjoint S ss -> 0 < interval ->
   ts_stepTo S cf [ss] thandlers flow reportAll time s orc = TSRet S st s' rest log uses ->
-  (forall u, In u uses -> use_ok u) ->
+  (forall u, In u uses -> use_core u) ->
   forall k h, In k log -> k_cause k = CScheduled -> In h (ss_handlers ss) -> h_id h = k_id k ->
   NoDup (map (@h_id S) (ss_handlers ss)) ->
   (forall t incl, h_next h t incl = Some (periodic_next interval t incl)) ->
